@@ -126,7 +126,7 @@ def check(case):
                 if g.shape != d.shape:
                     raise Violation(bucket + ":shape", f"{what} '{k}': {g.shape} vs {d.shape}")
                 err = float(np.max(np.abs(g - d))) if d.size else 0.0
-                if err > TOL * scale[k] + 1e-300:
+                if err > TOL * scale[k] + 1e-13:  # results are in natural units (use_factor=False): absolute rounding floor
                     raise Violation(bucket, f"{what}: '{k}' differs from the uninterrupted run at iteration {it} by "
                                             f"{err:.3e} (scale {scale[k]:.3e}); segments={segs} listing={case['listing']}")
 
